@@ -405,3 +405,98 @@ Proof.
   destruct (chunks_concat (length bs) mmhsum_buffer bs ltac:(unfold mmhsum_buffer; lia) (Nat.le_refl _)) as (C & F & R).
   repeat split; assumption || reflexivity.
 Qed.
+
+(* ---------- MurmurHash64B: termination, range, reads only the input, native dispatch ---------- *)
+Lemma b_body_no_fuel_error : forall fuel data len h1 h2, len < 8 * Z.of_nat fuel -> b_body fuel data len h1 h2 <> BFuel.
+Proof.
+  induction fuel as [|f IH]; intros data len h1 h2 L; cbn [b_body]; unfold m64b_loop_min, m64b_loop_dec1, m64b_loop_dec2.
+  - destruct (8 <=? len) eqn:E; [lia|discriminate].
+  - destruct (8 <=? len) eqn:E; [|discriminate]. apply IH. lia.
+Qed.
+
+Lemma load_le_app_enough : forall n d extra, (n <= length d)%nat -> load_le n (d ++ extra) = load_le n d.
+Proof.
+  induction n as [|n IH]; intros d extra L; [reflexivity|].
+  destruct d as [|b r]; [simpl in L; lia|]. cbn [app load_le]. rewrite IH by (simpl in L; lia). reflexivity.
+Qed.
+
+Lemma skipn_app_enough {A} : forall n (d extra : list A), (n <= length d)%nat -> skipn n (d ++ extra) = skipn n d ++ extra.
+Proof.
+  induction n as [|n IH]; intros d extra L; [reflexivity|].
+  destruct d as [|b r]; [simpl in L; lia|]. cbn [app skipn]. apply IH. simpl in L. lia.
+Qed.
+
+(* the block loop: with len = the number of bytes of the string still ahead, memory behind the string is not looked at *)
+Lemma b_body_app : forall fuel d extra h1 h2,
+  match b_body fuel d (Z.of_nat (length d)) h1 h2 with
+  | BFuel => b_body fuel (d ++ extra) (Z.of_nat (length d)) h1 h2 = BFuel
+  | BState d' len' g1 g2 =>
+    b_body fuel (d ++ extra) (Z.of_nat (length d)) h1 h2 = BState (d' ++ extra) len' g1 g2 /\ len' = Z.of_nat (length d') /\ len' < 8
+  end.
+Proof.
+  induction fuel as [|f IH]; intros d extra h1 h2; cbn [b_body]; unfold m64b_loop_min, m64b_loop_dec1, m64b_loop_dec2.
+  - destruct (8 <=? Z.of_nat (length d)) eqn:E; [reflexivity|]. repeat split; lia.
+  - destruct (8 <=? Z.of_nat (length d)) eqn:E; [|repeat split; lia].
+    assert (8 <= length d)%nat as L8 by lia.
+    unfold half_bytes.
+    rewrite (load_le_app_enough 4 d extra) by lia.
+    rewrite (skipn_app_enough 4 d extra) by lia.
+    rewrite (load_le_app_enough 4 (skipn 4 d) extra) by (rewrite skipn_length; lia).
+    rewrite (skipn_app_enough 4 (skipn 4 d) extra) by (rewrite skipn_length; lia).
+    replace (Z.of_nat (length d) - 4 - 4) with (Z.of_nat (length (skipn 4 (skipn 4 d)))) by (rewrite !skipn_length; lia).
+    apply IH.
+Qed.
+
+Theorem murmur64b_reads_only_input_proof bs extra seed :
+  murmur64b_mem (bs ++ extra) (Z.of_nat (length bs)) seed = murmur64b bs seed /\ murmur64b bs seed <> None.
+Proof.
+  unfold murmur64b, murmur64b_mem. rewrite Nat2Z.id.
+  pose proof (b_body_app (S (length bs)) bs extra (w32 (Z.lxor seed (Z.of_nat (length bs)))) m64b_h2_init) as A.
+  pose proof (b_body_no_fuel_error (S (length bs)) bs (Z.of_nat (length bs)) (w32 (Z.lxor seed (Z.of_nat (length bs)))) m64b_h2_init ltac:(lia)) as NF.
+  destruct (b_body (S (length bs)) bs (Z.of_nat (length bs)) (w32 (Z.lxor seed (Z.of_nat (length bs)))) m64b_h2_init) as [d' len' g1 g2|]; [|contradiction].
+  destruct A as (A & Ld & L8). rewrite A. subst len'. unfold m64b_half_min, m64b_half_dec, half_bytes.
+  destruct (4 <=? Z.of_nat (length d')) eqn:E4.
+  - rewrite (load_le_app_enough 4 d' extra) by lia. rewrite (skipn_app_enough 4 d' extra) by lia.
+    set (t := skipn 4 d'). assert (length t = length d' - 4)%nat as Lt by (unfold t; apply skipn_length).
+    assert (Z.of_nat (length d') - 4 = Z.of_nat (length t)) as -> by lia.
+    assert (length t < 4)%nat as T4 by lia.
+    split; [|discriminate].
+    destruct t as [|t0 [|t1 [|t2 [|t3 r]]]]; try (simpl in T4; lia); reflexivity.
+  - assert (length d' < 4)%nat as T4 by lia.
+    split; [|discriminate].
+    destruct d' as [|t0 [|t1 [|t2 [|t3 r]]]]; try (simpl in T4; lia); reflexivity.
+Qed.
+
+Lemma lor_lt_two64 a b : 0 <= a < two64 -> 0 <= b < two64 -> 0 <= Z.lor a b < two64.
+Proof.
+  intros Ha Hb. split; [apply Z.lor_nonneg; lia|].
+  destruct (Z.eq_dec (Z.lor a b) 0) as [->|NZ]; [reflexivity|].
+  assert (0 < Z.lor a b) as P by (pose proof (proj2 (Z.lor_nonneg a b) ltac:(lia)); lia).
+  unfold two64. apply Z.log2_lt_pow2; [exact P|].
+  rewrite Z.log2_lor by lia.
+  assert (Z.log2 a < 64) as La.
+  { destruct (Z.eq_dec a 0) as [->|]; [reflexivity|]. apply Z.log2_lt_pow2; unfold two64 in *; lia. }
+  assert (Z.log2 b < 64) as Lb.
+  { destruct (Z.eq_dec b 0) as [->|]; [reflexivity|]. apply Z.log2_lt_pow2; unfold two64 in *; lia. }
+  lia.
+Qed.
+
+Lemma w32_range x : 0 <= w32 x < 4294967296.
+Proof.
+  unfold w32, mask32. pose proof (land_ones_mod x 32 ltac:(lia)) as E. change (2 ^ 32 - 1) with 4294967295 in E.
+  rewrite E. apply Z.mod_pos_bound. reflexivity.
+Qed.
+
+Theorem murmur64b_range_proof bs seed v : murmur64b bs seed = Some v -> 0 <= v < two64.
+Proof.
+  unfold murmur64b, murmur64b_mem.
+  destruct (b_body _ _ _ _ _) as [d' len' g1 g2|]; [|discriminate].
+  destruct (m64b_half_min <=? len'); cbv zeta; intros E; injection E as <-;
+    (apply lor_lt_two64; [rewrite w64_mod; apply Z.mod_pos_bound; reflexivity|]);
+    unfold mul32; match goal with |- 0 <= w32 ?x < _ => pose proof (w32_range x) as R; unfold two64; lia end.
+Qed.
+
+Theorem native_dispatch_proof bs seed :
+  murmur_native_for 8 bs seed = Some (murmur64a bs seed) /\ murmur_native_for 4 bs seed = murmur64b bs seed /\
+  murmur_native bs seed = murmur64a bs seed.
+Proof. repeat split; reflexivity. Qed.
